@@ -841,7 +841,8 @@ func fixedTableLayout(box *bo.BoxFields) {
 				}
 			}
 			if len(columnsWithoutWidth) != 0 {
-				widthPerColumn := width / pr.Float(len(columnsWithoutWidth))
+				// the widths already known may exceed the width of the cell
+				widthPerColumn := pr.Max(width, 0) / pr.Float(len(columnsWithoutWidth))
 				for _, j := range columnsWithoutWidth {
 					columnWidths[j] = widthPerColumn
 				}
